@@ -928,7 +928,8 @@ def _x3_cases(src, events, rng_seed, limit):
             _Clock.offset = saved
             cases.append({"term": f"({C.coq_Z(now_us)}, {before}, {after})", "removed": n_before - len(st2.flow_states),
                           "flows": n_before, "wrong": wrong[:3], "src": src if wrong else None,
-                          "events": list(events) if wrong else None, "clock_s": saved + delta})
+                          "events": list(events) if wrong else None, "clock_s": saved + delta,
+                          "seed": rng_seed, "limit": limit})
     return cases
 
 
@@ -1136,6 +1137,8 @@ def run(tier, seed, replay=None):
         procs.append((_spawn("worker_main", [jp, rpth], budget + 120), rpth, job))
     # X3 + rails workers
     x3_items = []
+    if replay and rp.get("kind") == "x3":
+        x3_items.append({"src": rp["src"], "events": rp["events"], "seed": rp.get("seed", 1), "limit": rp.get("limit", 21)})
     if not replay:
         for i in range(24 if quick else 120):
             src = gen_program(rng, {})
@@ -1148,7 +1151,7 @@ def run(tier, seed, replay=None):
         json.dump({"items": x3_items}, open(jp, "w"))
         x3p = _spawn("x3_worker_main", [jp, x3res], 300 if quick else 900)
     railsres = os.path.join(tmp, "rails.json")
-    railsp = None if replay else _spawn("rails_worker_main", [railsres], 300)
+    railsp = None if (replay and rp.get("kind") != "rails") else _spawn("rails_worker_main", [railsres], 300)
 
     # ---- X1 (this process): generated graphs from the real classes
     kinds = {}
@@ -1212,6 +1215,7 @@ def run(tier, seed, replay=None):
                        "cleanup-removes-recently-finished-instance")
                 out.findings.append(C.Finding(sig, f"_clean_up_state discarded instance {w['uid']} (status {w['status']}, activated {w['activated']}, finished {w['age_s']:.6f} s ago)",
                                               {"kind": "x3", "src": c["src"], "events": c["events"], "clock_s": c["clock_s"], "removed": c["wrong"],
+                                               "seed": c.get("seed"), "limit": c.get("limit"),
                                                "required": "only FINISHED/STOPPED, non-activated instances older than 5 s are discarded"}))
         if okm and x3cases:
             bools, err = C.run_cases(PID + "_x3", PREAMBLE_CL, [c["term"] for c in x3cases], "check_cleanup", shard=40)
